@@ -6,6 +6,9 @@ total number of histories / configurations over all shards."""
 
 def st(flavour, engine, cases, ops=60, shards=8, timeout=900, **extra):
     d = {"flavour": flavour, "engine": engine, "cases": cases, "ops": ops, "shards": shards, "timeout": timeout}
+    cmp_ = extra.pop("compare", None)
+    if cmp_:
+        d["compare"] = cmp_
     ignore = extra.pop("miri_ignore_leaks", False)
     if ignore:
         d["miri_ignore_leaks"] = True
@@ -104,6 +107,12 @@ PLANS = {
         "thorough": [st("dbg", "panicdrop", 1496 * 40, 12, 16, 3000), st("rel", "panicdrop", 1496 * 40, 12, 16, 3000),
                      st("rel", "panicdrop", 1496 * 8, 12, 16, 3000, big=1), st("asan", "panicdrop", 1496 * 8, 12, 16, 3000)],
     },
+    "C20": {
+        "quick": [st("dbg", "det", 2400, 60, 4, compare="x"), st("dbg", "det", 2400, 60, 4, compare="x"),
+                  st("rel", "det", 2400, 60, 4, compare="x"), st("rel", "det", 2400, 60, 4, compare="x")],
+        "thorough": [st(f, "det", 160000, 80, 8, 3000, compare="x") for f in ("dbg", "dbg", "dbg", "dbg", "rel", "rel", "rel", "rel")]
+                    + [st("asan", "det", 8000, 80, 8, 3000, compare="y"), st("dbg", "det", 8000, 80, 8, 3000, compare="y")],
+    },
     "C18": {
         "quick": [script("derivegen", "derivegen/derivegen.py", ["--types", 60, "--values", 200, "--batches", 2])],
         "thorough": [script("derivegen", "derivegen/derivegen.py", ["--types", 1500, "--values", 2000, "--batches", 10,
@@ -140,6 +149,8 @@ RULES.update({
            "non-trivial = case where the panicking destructor call was neither the first nor the last of >=3 destroyed values",
     "C10": "small concurrent programs (2-4 threads x 1-6 ops in controlled mode; 2-16 threads x hundreds of ops in stress mode) of Entities::create / create_iter / build_entity / delete / is_alive / join and LazyUpdate exec / insert / create_entity on worlds pre-seeded with 0-5 live entities and 0-3 free-list entries, 1-3 concurrent phases each followed by maintain; controlled mode drives the interleaving of the hooked atomic steps with a seeded token-passing scheduler; "
            "non-trivial (controlled) = schedule with >=1 context switch from a thread stopped between atomic steps into another thread that is also between atomic steps; distinct = distinct recorded schedules",
+    "C20": "single-threaded histories (create now / atomic / lazy with components and markers, delete now / atomic / batch, maintain, insert / remove, joins incl. over HashMapStorage with maybe and anti members, mutable join + event stream of a tracked storage, mark, serialise to JSON / RON, load back) replayed (i) in two worlds in lock-step, (ii) in a world driven while unrelated worlds are mutated in between and on another thread, (iii) in 4 (quick) / 8+ (thorough) separate processes in debug and release builds whose per-case transcript hashes are compared by the driver; "
+           "non-trivial = history whose transcript includes a join over the hash-map storage and serialisations of >=3 entities; distinct = distinct transcript hashes",
     "C11": "random system graphs (331 system-data shapes over 4 component storages + Entities + Read<LazyUpdate>, random DAG dependencies, barriers, thread-local systems, pools of 1-32 threads, 3-10 dispatches each); "
            "non-trivial = graph with >=2 systems sharing a storage of which >=1 writes and a dispatch in which >=2 systems overlapped in logical time",
     "C12": "the C04 operation sequences on the 11 tracked wrapper/inner combinations with a registered reader; window = one operation; event emission toggled at random points; clear() excluded; "
